@@ -498,8 +498,12 @@ fn run_case(rigs: &mut Rigs, rep: &mut Report, c: &Case) {
                         let subs: Vec<Option<&Vec<u8>>> = (1..=n).map(|k| srv.dict.get(&(*index, k as u8))).collect();
                         if n <= *max && subs.iter().all(|v| v.map(|v| v.len()) == Some(w)) {
                             let want: Vec<u8> = subs.iter().flat_map(|v| v.unwrap().clone()).collect();
+                            // a never-expedited server with a mailbox too small for the element answers segmented
+                            let room = (c.rmbx as usize).saturating_sub(16);
+                            let seg_involved = srv.mode != Mode::Auto && (room < 1 || (n > 0 && room < w));
                             if o.result != format!("ok:{}:{}", n, hex(&want)) {
-                                rep.fail("c15/read-array", &format!("expected ok:{n}:{}, got {}", hex(&want), o.result), &line);
+                                let key = if !seg_involved { "c15/read-array" } else if srv.scs == 0 { "c15/segment-response-scs0" } else { "c15/segment-data-offset" };
+                                rep.fail(key, &format!("expected ok:{n}:{}, got {}", hex(&want), o.result), &line);
                             } else {
                                 rep.nontrivial.insert(line.clone());
                             }
@@ -641,10 +645,10 @@ fn gen_cases(tier: &str, rng: &mut Rng, out: &mut dyn FnMut(Case)) {
     let rmbx_pool: Vec<u16> = if thorough { (16..=1024).collect() } else { vec![16, 17, 18, 19, 20, 21, 22, 23, 24, 25, 27, 32, 33, 48, 64, 100, 128, 255, 256, 512, 528, 1024] };
 
     // ---- 1. every object size x every upload mode the server may choose
-    let step = if thorough { 1 } else { 7 };
+    let step = if thorough { 1 } else { 3 };
     let mut n = 0usize;
     while n <= 512 {
-        let picks = if thorough { 6 } else { 2 };
+        let picks = if thorough { 16 } else { 3 };
         for _ in 0..picks {
             let rmbx = *rng.pick(&rmbx_pool);
             let ascii = rng.chance(1, 3);
@@ -694,7 +698,7 @@ fn gen_cases(tier: &str, rng: &mut Rng, out: &mut dyn FnMut(Case)) {
         }
     }
     // random patterns for large objects, incl. a last segment below 7 bytes
-    let n_pat = if thorough { 6000 } else { 300 };
+    let n_pat = if thorough { 30_000 } else { 600 };
     for _ in 0..n_pat {
         let rmbx = *rng.pick(&rmbx_pool);
         let n = rng.range(5, 512) as usize;
@@ -744,7 +748,7 @@ fn gen_cases(tier: &str, rng: &mut Rng, out: &mut dyn FnMut(Case)) {
     }
 
     // ---- 4. complete access, aborts, emergencies, unknown objects
-    let n4 = if thorough { 4000 } else { 400 };
+    let n4 = if thorough { 30_000 } else { 1200 };
     for _ in 0..n4 {
         let rmbx = *rng.pick(&rmbx_pool);
         let index = *rng.pick(&[0x1c12u16, 0x2000, 0x6000, 0xffff]);
@@ -808,7 +812,7 @@ fn gen_cases(tier: &str, rng: &mut Rng, out: &mut dyn FnMut(Case)) {
         }
     }
     // arrays whose elements match the destination: consistent read / write of sub-indices 1..n and the count
-    let n_arr = if thorough { 1500 } else { 150 };
+    let n_arr = if thorough { 8000 } else { 400 };
     for _ in 0..n_arr {
         let w = *rng.pick(&[1usize, 2, 4]);
         let d = match w {
